@@ -151,13 +151,17 @@ Definition range_b (rg : registry) (minptr maxptr : N) : bool :=
   forallb (fun kv => let p := Npos (fst kv) in ((p mod 8 =? 0) && (minptr <=? p) && (p <=? maxptr))%N)
           (PM.elements rg).
 
-Fixpoint nodup_b (l : list word) : bool :=
-  match l with [] => true | a :: r => negb (existsb (N.eqb a) r) && nodup_b r end.
+(* NoDup of a list of non-NULL words, n log n: insert one by one into a set *)
+Fixpoint nodup_b (l : list word) (seen : marks) : bool :=
+  match l with
+  | [] => true
+  | a :: r => negb (marked seen a) && nodup_b r (setmark a seen)
+  end.
 
 Definition order_b (rg : registry) (order : list word) : bool :=
-  nodup_b order && forallb (registered rg) order &&
-  forallb (fun kv => existsb (N.eqb (Npos (fst kv))) order) (PM.elements rg).
-
+  forallb (registered rg) order && nodup_b order nempty &&
+  (let s := fold_right setmark nempty order in
+   forallb (fun kv => marked s (Npos (fst kv))) (PM.elements rg)).
 
 (* kinds of objects the correspondence harness builds, and their contents *)
 Inductive kind := KStruct | KRef | KBox | KArray | KList | KTable | KTree | KTuple | KLeaf.
